@@ -50,7 +50,7 @@ class World:
         self.m = h.machine
         self.loop = self.m.clock.loop
         self.loc = {1: 'bd_trough', 2: 'bd_trough', 3: 'bd_trough'}     # or ('transit', src, dst, kind)
-        self.outcomes = outcomes       # per device: list of 'ok' | 'back' | 'noleave'
+        self.outcomes = outcomes       # per device: list of 'ok' | 'back' | 'late' | 'noleave'
         self.ev = ev
         self.pending = 0               # world moves scheduled and not done yet
         self.fired = set()             # devices whose coil was pulsed and whose ball has not reacted yet
@@ -58,6 +58,10 @@ class World:
         self.GAME = bool(TOPO[topo].get('game'))
         self.LAUNCH = TOPO[topo].get('launch')
         self.nreq = 0
+        self.released = {}             # holding device -> released balls that have not left yet
+        self.since = {}                # ball -> time it came to rest where it is
+        self.lateballs = set()         # balls on a slow trip (arrive after the eject timeout)
+        self.want = 0
         if self.LAUNCH:
             self._press()
 
@@ -65,9 +69,6 @@ class World:
         # a player who keeps pressing the launch button (every 1.7 s): player-controlled ejects wait for it
         self.m.events.post(self.LAUNCH)
         self.loop.call_later(1.7, self._press)
-        self.released = {}             # holding device -> released balls that have not left yet
-        self.since = {}                # ball -> time it came to rest where it is
-        self.want = 0
 
     def mpf(self):
         d = {n: int(self.m.ball_devices[n].balls) for n in DEVS}
@@ -113,7 +114,8 @@ class World:
         last_req = max([i for i, e in enumerate(self.ev) if e['op'] == 'request'] or [-1])
         last_leave = max([i for i, e in enumerate(self.ev) if e['op'] == 'leave' and e['d'] != dev and self.TG[e['d']] == tgt] or [-1])
         late_req = int(rolling > 0 and last_req > last_leave)
-        self.log(op='fire', d=dev, _rolling=rolling, _same=same, _back=back, _sitting=sitting, _tfired=int(tgt in self.fired), _latereq=late_req)
+        slow = len([1 for b2, p in self.loc.items() if b2 in self.lateballs and isinstance(p, tuple) and p[2] == tgt])
+        self.log(op='fire', d=dev, _rolling=rolling, _same=same, _back=back, _sitting=sitting, _tfired=int(tgt in self.fired), _latereq=late_req, _slow=slow)
         self.fired.add(dev)
         q = self.outcomes.get(dev) or []
         kind = q.pop(0) if q else 'ok'
@@ -128,11 +130,19 @@ class World:
             self.log(op='noleave', d=dev)
             return
         b = balls[-1]
-        self.loc[b] = ('transit', dev, self.TG[dev], kind)
+        late = kind == 'late'       # arrives after every eject timeout (3-4 s) has expired, well before a ball is given up
+        if late:
+            self.lateballs.add(b)
+        self.loc[b] = ('transit', dev, self.TG[dev], 'ok' if late else kind)
         self.sync_switches(dev)
-        if kind == 'ok' and self.released.get(dev):
+        if kind != 'back' and self.released.get(dev):
             self.released[dev] -= 1
         self.log(op='leave', d=dev, b=b, kind=kind)
+        if late:
+            if dev in self.CONFIRM:
+                self.later(6.85, self.pulse_switch, self.CONFIRM[dev])
+            self.later(7.0, self.arrive, b)
+            return
         if dev in self.CONFIRM and kind == 'ok':
             # the ball passes the eject-confirm switch shortly before it reaches the target
             self.later(0.45, self.pulse_switch, self.CONFIRM[dev])
@@ -146,6 +156,7 @@ class World:
         _, src, dst, kind = self.loc[b]
         place = dst if kind == 'ok' else src
         self.loc[b] = place
+        self.lateballs.discard(b)
         self.since[b] = self.loop.time()
         if place == 'pf':
             self.m.switch_controller.process_switch('s_pf', 1, logical=True)
@@ -396,6 +407,10 @@ def handmade():
         # (holding lock feeding the launcher) all balls out, two get held, a further request can only come from the hold
         [R, R, R, AF(S, 'arrive', 'pf'), S, R, D, D],
         [R, R, R, AF(S, 'arrive', 'pf'), D, S, R, R, D],
+        # late arrivals: the ball reaches its target only after the eject timeout
+        [R, L('bd_trough', 'late'), R, D, D],
+        [R, L('bd_trough', 'ok'), L('bd_plunger', 'late'), R, L('bd_trough', 'late'), D, D],
+        [R, AF(S, 'arrive', 'pf'), L('bd_lock', 'late'), R, D, D],
         [R, D, R, R, D, D],
         [R, L('bd_trough', 'back'), L('bd_plunger', 'back'), R, D],
         [R, N('bd_trough'), N('bd_trough'), R, S, S, D],
@@ -469,6 +484,9 @@ def classify(fe, topo):
         # why the target has no room: a ball that left another source earlier is still rolling towards it; the target's own
         # failed eject is falling back into it; another source was fired in this same instant; the target's coil was
         # just fired (MPF counts on that eject to succeed); or balls are simply sitting in it
+        if fe.get('_slow', 0) > 0 and fe.get('_rolling', 0) == fe.get('_slow', 0):
+            # the only ball on its way is one whose eject already timed out for MPF (late arrival)
+            return 'fire-at-full-target:late-ball'
         why = [n for n, k in (('ball-rolling:requested-after-it-left' if fe.get('_latereq') else 'ball-rolling', '_rolling'), ('ball-falling-back', '_back'), ('same-instant', '_same'),
                               ('target-ejecting', '_tfired')) if fe.get(k, 0) > 0]
         return 'fire-at-full-target:' + ('+'.join(why) if why else 'ball-sitting')
@@ -487,12 +505,13 @@ def report(ctx, pid, jobs, traces, rejected):
         kind = classify(fe, jobs[i][2])
         # progress clauses belong to C05, count clauses to C04; delivery at rest is judged by both
         mine = kind.startswith(C05_KINDS) if pid == 'C05' else not kind.startswith(('rest:not-idle', 'rest:under-delivered'))
-        if kind == 'rest:counts-or-delivery':
+        if kind == 'rest:counts-or-delivery' or kind.startswith('step:crash'):
             mine = True
         if not mine:
             continue
         what = '%s: line %s not explained by BallWorld spec: %s (prev %s)' % (kind, info.get('line'), fe, pe)
-        ctx.violation('%s:%s:%s' % (pid, jobs[i][2], kind), what, {'job': list(jobs[i]), 'trace': traces[i], 'info': info})
+        # (the late-ball class does not depend on the topology: one signature for all)
+        ctx.violation('%s:%s:%s' % (pid, 'any' if kind.endswith(':late-ball') else jobs[i][2], kind), what, {'job': list(jobs[i]), 'trace': traces[i], 'info': info})
 
 
 def run(ctx):
